@@ -285,6 +285,14 @@ def run(ctx):
                          ("http://οδός.gr/x", "http://ΟΔΌΣ.GR/x")):
                 check_chain(ctx, fn, a, [("case-any", b)], OPTSETS[:2])
                 ctx.count("case-flip-of-a-capital-sigma")
+            for a, b, nm in (("https://mashable-com.cdn.ampproject.org/c/s/mashable.com/2018/x", "https://mashable-com.cdn.ampproject.org:12345/c/s/mashable.com/2018/x", "port-any"),
+                             ("http://bc.marfeelcache.com/amp/www.lemonde.fr/a", "http://bc.marfeelcache.com:65535/amp/www.lemonde.fr/a", "port-any"), ("http://r.example.net/out?url=http%3A%2F%2Fb.org%2Fp", "http://r.example.net:54321/out?url=http%3A%2F%2Fb.org%2Fp", "port-any"),
+                             ("https://youtu.be/dQw4w9WgXcQ", "https://fr.youtu.be/dQw4w9WgXcQ", "lang-xx"), ("https://youtu.be/dQw4w9WgXcQ?t=1", "https://pt-br.youtu.be/dQw4w9WgXcQ?t=1", "lang-xx-yy")):
+                check_chain(ctx, fn, a, [(nm, b)], OPTSETS)
+                ctx.count("T-" + nm)
+            for a, b in (("http://10.0.0.1.example.co.uk/x", "http://10.0.0.1.example.com/x"), ("http://localhostel.fr/a", "http://localhostel.co.uk/a"), ("http://cafe.example.de/a", "http://cafe.example.com.au/a")):
+                check_chain(ctx, fn, a, [("suffix-swap", b)], [OPTSETS[1], OPTSETS[3]])
+                ctx.count("T-suffix-swap")
             for a, b in (("a.com/straße", "a.com/stra%C3%9Fe"), ("a.com/x?q=ﬁn", "a.com/x?q=%EF%AC%81n"), ("a.com/a#/ſtraße", "a.com/a#/%C5%BFtra%c3%9fe")):
                 check_chain(ctx, fn, a, [("escape", b)], OPTSETS[:2])
                 ctx.count("escaped-letter-whose-casefold-differs")
